@@ -495,7 +495,7 @@ Proof.
       split; [assumption|]. split; [|split; [assumption|split; [|assumption]]].
       * intros _. destruct (W2 E2) as (b0 & bytes & Hs0 & Hg0 & Hl0).
         assert (b0 = b) by congruence. subst b0. assert (bytes = old) by congruence. subst bytes.
-        exists b, (upd_range old pos bs). split; [reflexivity|]. split; [apply aget_aset_same|].
+        exists b, (upd_range old pos bs). split; [exact Hs|]. split; [apply aget_aset_same|].
         rewrite upd_range_length; assumption.
       * intros b0 n Ha. destruct (W4 b0 n Ha) as (x & Hx & Hl). exists x. split; [|assumption].
         rewrite aget_aset_other; [assumption|]. intros Heq. subst b0.
